@@ -22,6 +22,7 @@ import (
 	"time"
 	"unicode/utf8"
 
+	"github.com/nyaruka/gocommon/urns"
 	"github.com/nyaruka/gocommon/uuids"
 	"github.com/nyaruka/goflow/assets"
 	"github.com/nyaruka/goflow/assets/static"
@@ -37,7 +38,7 @@ type PayloadOpts struct {
 }
 
 type PayloadAction struct {
-	Kind        string   `json:"kind"` // send_msg | set_contact_name | set_contact_field | set_run_result
+	Kind        string   `json:"kind"` // send_msg | set_contact_name | set_contact_field | set_run_result | play_audio | say_msg (voice flow)
 	Text        string   `json:"text"`
 	Field       string   `json:"field,omitempty"` // notes (text) | age (number) | joined (datetime)
 	Name        string   `json:"name,omitempty"`  // result name
@@ -174,6 +175,27 @@ func genPayloadCase(r *hx.Rand) *PayloadCase {
 		}
 	}
 	nact := r.Range(1, 4)
+	if r.Chance(1, 7) {
+		// a voice flow: the audio URL of play_audio (a template) and of say_msg (a text of the definition) becomes the
+		// attachment of the message on ivr_created
+		for i := 0; i < nact; i++ {
+			path := strings.ReplaceAll(genValue(r, hx.Pick(r, []int{10, 600, 2010, 2020, 2030, 2100, 4000}), hx.Pick(r, [][]string{{"ascii"}, {"multibyte"}, {"ascii", "multibyte"}})), " ", "_")
+			url := "https://example.com/" + path + ".mp3"
+			if r.Bool() {
+				c.Actions = append(c.Actions, PayloadAction{Kind: "play_audio", Text: url})
+			} else {
+				c.Actions = append(c.Actions, PayloadAction{Kind: "say_msg", Text: genValue(r, genLen(r, min(c.Opts.MaxTemplateChars, 700)), genKinds(r)), Attachments: []string{url}})
+			}
+		}
+		if r.Chance(1, 3) {
+			for i := range c.Actions {
+				if c.Actions[i].Kind == "play_audio" {
+					c.Actions[i].Text = "https://example.com/@(repeat(\"a\", " + fmt.Sprint(hx.Pick(r, []int{100, 2020, 2040, 3000})) + ")).mp3"
+				}
+			}
+		}
+		return c
+	}
 	defer func() {
 		// 1 case in 3: the values are TEMPLATES with an expression that fails (and sometimes a long repeat())
 		if !r.Chance(1, 3) {
@@ -245,7 +267,19 @@ func payloadCorpus() []*PayloadCase {
 			{Kind: "set_contact_name", Text: `@(upper()) ` + long},
 			{Kind: "set_contact_field", Field: "notes", Text: `@contact.xxx ` + long}}})
 	}
+	// voice: an audio URL longer than the attachment limit (evaluated for play_audio, a text of the definition for say_msg)
+	out = append(out, &PayloadCase{Kind: "payload", Opts: def, Actions: []PayloadAction{{Kind: "play_audio", Text: `https://example.com/@(repeat("a", 3000)).mp3`}}})
+	out = append(out, &PayloadCase{Kind: "payload", Opts: def, Actions: []PayloadAction{{Kind: "say_msg", Text: "hello", Attachments: []string{"https://example.com/" + strings.Repeat("a", 3000) + ".mp3"}}}})
 	return out
+}
+
+func (c *PayloadCase) voice() bool {
+	for _, a := range c.Actions {
+		if a.Kind == "play_audio" || a.Kind == "say_msg" {
+			return true
+		}
+	}
+	return false
 }
 
 func (c *PayloadCase) assetsJSON() []byte {
@@ -260,6 +294,13 @@ func (c *PayloadCase) assetsJSON() []byte {
 			}
 			if len(a.Attachments) > 0 {
 				am["attachments"] = a.Attachments
+			}
+		case "play_audio":
+			am["audio_url"] = a.Text
+		case "say_msg":
+			am["text"] = a.Text
+			if len(a.Attachments) > 0 {
+				am["audio_url"] = a.Attachments[0]
 			}
 		case "set_contact_name":
 			am["name"] = a.Text
@@ -281,7 +322,11 @@ func (c *PayloadCase) assetsJSON() []byte {
 		map[string]any{"uuid": "f1b5aea6-6586-41c7-9020-1a6326cc6565", "key": "age", "name": "Age", "type": "number"},
 		map[string]any{"uuid": "6c86d5ab-3fd9-4a5c-a5b6-48168b016747", "key": "joined", "name": "Joined", "type": "datetime"},
 	}
-	b, err := json.Marshal(map[string]any{"flows": []any{flow}, "fields": fields})
+	if c.voice() {
+		flow["type"] = "voice"
+	}
+	b, err := json.Marshal(map[string]any{"flows": []any{flow}, "fields": fields,
+		"channels": []any{map[string]any{"uuid": channelUUID, "name": "Twilio", "address": "235326346", "schemes": []string{"tel"}, "roles": []string{"send", "receive", "call", "answer"}}}})
 	if err != nil {
 		panic(err)
 	}
@@ -352,6 +397,9 @@ func runPayloadCase(c *PayloadCase, res *hx.Result) {
 	}
 	flowRef := assets.NewFlowReference(assets.FlowUUID(uuidOf(kFlow, 1)), "F1")
 	trig := triggers.NewBuilder(env0, flowRef, contact).Manual().Build()
+	if c.voice() {
+		trig = triggers.NewBuilder(env0, flowRef, contact).Manual().WithCall(assets.NewChannelReference(assets.ChannelUUID(channelUUID), "Twilio"), urns.URN("tel:+12065551212")).Build()
+	}
 	var s flows.Session
 	var sp flows.Sprint
 	p, hungNow := guarded(func() { s, sp, err = eng.NewSession(sa, trig) })
@@ -379,8 +427,19 @@ func runPayloadCase(c *PayloadCase, res *hx.Result) {
 		res.OracleChecks++
 		res.Dist("payload-event:" + pe.Type)
 		switch pe.Type {
-		case "msg_created":
+		case "msg_created", "ivr_created":
 			if pe.Msg == nil {
+				continue
+			}
+			if pe.Type == "ivr_created" {
+				for _, a := range pe.Msg.Attachments {
+					if len(a) > flows.MaxAttachmentLength {
+						fail("ivr-attachment-too-long:"+valueFeatures(a), fmt.Sprintf("the message on ivr_created has an attachment of %d bytes, limit %d", len(a), flows.MaxAttachmentLength))
+					}
+				}
+				if runes(pe.Msg.Text) > lim(c.Opts.MaxTemplateChars) {
+					fail("ivr-text-too-long", fmt.Sprintf("ivr_created text has %d characters, MaxTemplateChars %d", runes(pe.Msg.Text), c.Opts.MaxTemplateChars))
+				}
 				continue
 			}
 			if len(pe.Msg.Templating) == 0 && runes(pe.Msg.Text) > lim(c.Opts.MaxTemplateChars) {
@@ -455,8 +514,8 @@ func runPayloadCase(c *PayloadCase, res *hx.Result) {
 			over = over || runes(a.Text) > lim(c.Opts.MaxFieldChars)
 		case "set_run_result":
 			over = over || runes(a.Text) > lim(c.Opts.MaxResultChars)
-		case "send_msg":
-			over = over || runes(a.Text) > lim(c.Opts.MaxTemplateChars) || len(a.QuickReps) > 0 || len(a.Attachments) > 0
+		case "send_msg", "say_msg", "play_audio":
+			over = over || runes(a.Text) > lim(c.Opts.MaxTemplateChars) || len(a.QuickReps) > 0 || len(a.Attachments) > 0 || len(a.Text) > 2000
 		}
 	}
 	res.Eval(string(key), over)
